@@ -249,6 +249,26 @@ func (k *keyCtx) addCaseCt(c Case, variant string, m1, m2, c1, c2 *big.Int) (out
 		} else if d.Big().Cmp(k.ref.Sym(sum)) != 0 {
 			add("add-wrap-mismatch", fmt.Sprintf("Dec(c1+c2)=%s, sum=%s is out of range and must wrap to %s", short(d.Big()), short(sum), short(k.ref.Sym(sum))))
 		}
+		// history: clone, operate on the clone, use the original again.  A clone is an independent value:
+		// the in-place operations (Add, Randomize) on it must leave the original and the argument untouched.
+		orig, arg := ctOf(c1, k.width), ctOf(c2, k.width)
+		cl := orig.Clone()
+		cl.Add(k.pk(variant), arg)
+		if ctBig(orig).Cmp(c1) != 0 {
+			add("clone-aliases-original", fmt.Sprintf("after c.Clone().Add(d) the ORIGINAL c changed from %s to %s", short(c1), short(ctBig(orig))))
+		}
+		if ctBig(arg).Cmp(c2) != 0 {
+			add("add-modifies-argument", fmt.Sprintf("after c.Add(d) the argument d changed from %s to %s", short(c2), short(ctBig(arg))))
+		}
+		cl2 := orig.Clone()
+		cl2.Randomize(k.pk(variant), natOf(big.NewInt(1)))
+		cl2.Randomize(k.pk(variant), nil)
+		if ctBig(orig).Cmp(c1) != 0 {
+			add("clone-aliases-original", fmt.Sprintf("after c.Clone().Randomize() the ORIGINAL c changed from %s to %s", short(c1), short(ctBig(orig))))
+		}
+		if again := ctBig(orig.Clone().Add(k.pk(variant), arg)); again.Cmp(want) != 0 {
+			add("add-ciphertext-mismatch", fmt.Sprintf("second addition on the same objects: Add=%s reference=%s", short(again), short(want)))
+		}
 	})
 	return
 }
